@@ -14,7 +14,8 @@ use crate::probes::unhex;
 pub const PREFIX: &str = "seq_";
 use snel_db::command::types::{CompareOp, EventSequence, EventTarget, Expr, SequenceLink};
 use snel_db::engine::core::read::cache::DecompressedBlock;
-use snel_db::engine::core::read::sequence::{ColumnarGrouper, SequenceMatcher, SequenceWhereEvaluator};
+use snel_db::engine::core::read::sequence::{ColumnarGrouper, SequenceMatcher, SequenceMaterializer, SequenceWhereEvaluator};
+use snel_db::engine::types::ScalarValue;
 use snel_db::engine::core::{CandidateZone, ColumnValues};
 use snel_db::engine::schema::registry::{MiniSchema, SchemaRegistry};
 use snel_db::engine::schema::types::FieldType;
@@ -78,7 +79,10 @@ fn zones_in(tok: &str, fields: &[String], ty: &str) -> Option<(Vec<CandidateZone
         }
         // every zone carries the event_type column, as batches_to_zones guarantees
         values.insert("event_type".into(), string_column(&rows.iter().map(|_| ty.to_string()).collect::<Vec<_>>()));
-        let mut zone = CandidateZone::new(zi as u32, format!("streaming_{}", ty));
+        // identity column for the materialisation check: the flat position of the row within its type
+        values.insert("vpos".into(), string_column(&(0..rows.len()).map(|i| format!("r{}", pos + i)).collect::<Vec<_>>()));
+        // zone ids are unique within a segment only: zones 0 and 1 stand for zone 0 of two segments
+        let mut zone = CandidateZone::new((zi / 2) as u32, format!("streaming_{}", ty));
         zone.set_values(values);
         zones.push(zone);
         starts.push(pos);
@@ -145,6 +149,23 @@ pub fn run(t: &[String]) -> String {
                 links: vec![(link, EventTarget { event: tb.clone(), field: None })],
             };
             let matches = SequenceMatcher::new(sequence, "t".into()).with_where_evaluator(ev).match_sequences(groups, &zones, limit);
+            // the materialiser must turn every matched row index into the event of exactly that row
+            let mats = SequenceMaterializer::new().materialize_matches(matches.clone(), &zones);
+            if mats.len() != matches.len() {
+                return format!("BAD_PAIR materializer returned {} sequences for {} matches", mats.len(), matches.len());
+            }
+            for (m, ms) in matches.iter().zip(mats.iter()) {
+                if ms.events.len() != m.matched_rows.len() {
+                    return format!("BAD_PAIR materializer built {} events for {} matched rows", ms.events.len(), m.matched_rows.len());
+                }
+                for ((ty, ri), e) in m.matched_rows.iter().zip(ms.events.iter()) {
+                    let want = format!("r{}", starts[ty][ri.zone_idx] + ri.row_idx);
+                    let got = match e.payload.get("vpos") { Some(ScalarValue::Utf8(s)) => s.clone(), other => format!("{:?}", other) };
+                    if got != want || e.event_type != *ty {
+                        return format!("BAD_PAIR materialized event of {} row {} is {} row {}", ty, want, e.event_type, got);
+                    }
+                }
+            }
             let mut out = Vec::new();
             for m in matches {
                 let mut a = None;
